@@ -458,7 +458,7 @@ def main(argv):
             grid = grid[k:] + grid[:k]
         for gi, params in enumerate(grid):
             opts = {'timeout_ms': meta.get('timeout_ms', {}).get(tier, 60000 if tier == 'quick' else 300000),
-                    'trace': gi == 0, 'tv': gi < meta.get('tv_per_scenario', {}).get(tier, 1) or s.name in meta.get('tv_all', []),
+                    'trace': gi == 0, 'tv': gi < meta.get('tv_per_scenario', {}).get(tier, 1) or s.name in meta.get('tv_all', []) or bool(os.environ.get('VERIF_TV_ALL')),
                     'cvc5': 2 if gi == 0 else 0, 'replay_random': meta.get('replay_random', 2),
                     'task_timeout': meta.get('task_timeout', {}).get(tier, 900 if tier == 'quick' else 3600)}
             tasks.append((prop, s.name, params, tier, seed, opts))
